@@ -151,6 +151,28 @@ def check_hosts(rec, rng, idx, of):
             rec.violation(f"C20/host_is_trusted-raises-{type(e).__name__}", f"{e!r}; {case}", case, monitor="exception-type")
             continue
         rec.observe("host_trusted" if got else "host_untrusted")
+        # configuration: the same names in another container (the API takes any iterable of names, or one name as a str)
+        def encodable(name_):
+            try:
+                name_.lstrip(".").partition(":")[0].encode("idna")
+                return True
+            except UnicodeError:
+                return False
+
+        # (an entry that is no host name at all - a label of 64 characters - makes the verdict depend on where it stands in
+        # the list: a configuration error, not compared)
+        for shape, tl2 in (("tuple", tuple(tl)), ("set", set(tl)), ("generator", (x_ for x_ in tl)), ("str", tl[0] if len(tl) == 1 else None)) if all(encodable(x_) for x_ in tl) else ():
+            if tl2 is None:
+                continue
+            try:
+                got2 = host_is_trusted(host, tl2)
+            except Exception as e:  # noqa: BLE001
+                rec.violation(f"C20/host_is_trusted-raises-{type(e).__name__}", f"trusted names given as {shape}: {e!r}; {case}", case, monitor="exception-type")
+                break
+            rec.observe("trusted_names_in_another_container")
+            if got2 != got:
+                rec.violation("C20/untrusted-host-accepted" if got2 else "C20/listed-host-rejected", f"host_is_trusted({host!r}, ...) with the names {tl!r} given as {shape}: {got2}; as a list: {got}", case, monitor="label-reference")
+                break
         if got not in exp:
             key = "C20/untrusted-host-accepted" if got else "C20/listed-host-rejected"
             rec.violation(key, f"host_is_trusted({host!r}, {tl!r}) = {got}, reference {sorted(exp)}; {case}", case, monitor="label-reference")
